@@ -96,9 +96,14 @@ func genPend(r *rand.Rand) input {
 	in := input{Kind: "pend", Shards: vh.Pick(r, 0, 1, 2, 4, 16, 3, -1, 8)}
 	nch := 2 + r.IntN(3)
 	for i := 0; i < nch; i++ {
-		in.Chunks = append(in.Chunks, vh.Pick(r, 1, 1, 1, 2, 1, 0)) // channel capacities
+		in.Chunks = append(in.Chunks, vh.Pick(r, 1, 1, 1, 2, 1, 1, 1, 1, 2, 0)) // channel capacities
 	}
-	id := func() uint64 {
+	// a planner that knows what is registered, so that most Completes hit, most
+	// Recvs find something, and ids / channels collide often
+	stored := map[uint64]int{} // id -> channel
+	mail := map[int]int{}      // channel -> messages waiting (approximate)
+	closed := false
+	freshID := func() uint64 {
 		switch r.IntN(8) {
 		case 0:
 			return vh.Pick(r, uint64(16), 17, 32, 1<<63, ^uint64(0))
@@ -106,30 +111,70 @@ func genPend(r *rand.Rand) input {
 			return uint64(r.IntN(5))
 		}
 	}
+	storedID := func() (uint64, bool) {
+		if len(stored) == 0 {
+			return 0, false
+		}
+		ids := make([]uint64, 0, len(stored))
+		for id := range stored {
+			ids = append(ids, id)
+		}
+		sort.Slice(ids, func(i, j int) bool { return ids[i] < ids[j] })
+		return ids[r.IntN(len(ids))], true
+	}
 	ch := func() int {
-		if r.IntN(25) == 0 {
+		if r.IntN(30) == 0 {
 			return nch + r.IntN(2) // nil channel
 		}
 		return r.IntN(nch)
 	}
-	n := 3 + r.IntN(18)
-	closed := false
+	n := 4 + r.IntN(20)
 	for i := 0; i < n; i++ {
 		var o opIn
 		switch x := r.IntN(100); {
 		case x < 30:
-			o = opIn{Op: "store", ID: id(), C: ch()}
-		case x < 38:
-			o = opIn{Op: "delete", ID: id()}
-		case x < 65:
-			o = opIn{Op: "complete", ID: id(), Err: vh.Pick(r, 0, 0, 0, 1, 2), Payload: hex.EncodeToString(vh.Bytes(r, r.IntN(4)))}
-		case x < 70 || (closed && x < 73):
+			o = opIn{Op: "store", ID: freshID(), C: ch()}
+			if o.C < nch && in.Chunks[o.C] > 0 {
+				if closed {
+					mail[o.C]++
+				} else {
+					stored[o.ID] = o.C
+				}
+			}
+		case x < 36:
+			o = opIn{Op: "delete", ID: freshID()}
+			if id, ok := storedID(); ok && r.IntN(2) == 0 {
+				o.ID = id
+			}
+			delete(stored, o.ID)
+		case x < 64:
+			o = opIn{Op: "complete", ID: freshID(), Err: vh.Pick(r, 0, 0, 0, 1, 2), Payload: hex.EncodeToString(vh.Bytes(r, r.IntN(4)))}
+			if id, ok := storedID(); ok && r.IntN(10) < 7 {
+				o.ID = id
+			}
+			if c, ok := stored[o.ID]; ok {
+				mail[c]++
+				delete(stored, o.ID)
+			}
+		case x < 68 || (closed && x < 70):
 			o = opIn{Op: "failall", Err: vh.Pick(r, 1, 2, 3, 0)}
-			closed = true
-		case x < 80:
+			for _, c := range stored {
+				mail[c]++
+			}
+			stored, closed = map[uint64]int{}, true
+		case x < 76:
 			o = opIn{Op: "len"}
 		default:
 			o = opIn{Op: "recv", C: r.IntN(nch)}
+			for c := 0; c < nch; c++ { // prefer a channel that has something
+				if mail[c] > 0 && r.IntN(3) != 0 {
+					o.C = c
+					break
+				}
+			}
+			if mail[o.C] > 0 {
+				mail[o.C]--
+			}
 		}
 		in.Ops = append(in.Ops, o)
 	}
@@ -307,7 +352,7 @@ func genConn(r *rand.Rand) input {
 			delete(active, c)
 			delete(answered, c)
 			delete(finished, c)
-		case x < 92:
+		case x < 96 || i < 3:
 			var cands []int
 			for c := range answered {
 				cands = append(cands, c)
